@@ -499,6 +499,10 @@ impl TransportService {
                     "connection closed but it doesn't exist",
                 );
 
+                // The closed connection is not the secondary connection: keep the secondary
+                // connection that was taken out above.
+                context.secondary = connection_state;
+
                 None
             }
         }
